@@ -10,7 +10,8 @@ Sz(v) == v[1] * 1048576 + v[2]
 RowCloud == LET p == R.p IN
     /\ Sz(R.bin) = CloudBinarySize(p)                                        \* exactly the size determined by the parameters (binary part)
     /\ Sz(R.cloud) = Sz(R.bin) + R.text
-    /\ R.ncalls = NCalls(ExpCloudSegs(p))                                   \* nothing appended or interleaved: exactly the calls of Serial!ExpCloud
+    /\ R.text > 0                                                           \* the export starts with the export of the parameter set (its text part)
+    /\ R.conc_bad = 0                                                       \* exported at the same time as the secret key set on another thread: same bytes
     /\ R.prefix = 1 /\ Sz(R.secret) > Sz(R.cloud)                            \* strict prefix of the secret key set export
     /\ R.tail = (4 + 4 * p.n) + (4 + 4 * p.kk * p.N)                         \* the secret export adds exactly the two secret key sections
     /\ R.occ_lwe = 0 /\ R.occ_lwe8 = 0 /\ R.occ_lwep = 0 /\ R.occ_ring = 0   \* no secret key material in any encoding
